@@ -4,6 +4,8 @@
 #include "verif/arrays.hpp"
 #include "nmtools/utility/isequal.hpp"
 #include "nmtools/utility/isclose.hpp"
+#include "nmtools/utility/apply_isequal.hpp"
+#include "nmtools/utility/apply_isclose.hpp"
 #include "nmtools/array/view/reshape.hpp"
 #include <optional>
 
@@ -22,8 +24,33 @@ template <class T> static dyn_t<T> nd_of(const vj::value& v, double scale) {
 template <bool Close, class A, class B> static bool cmp(const A& a, const B& b, double eps) {
     if constexpr (Close) return (bool)utils::isclose(a, b, eps); else return (bool)utils::isequal(a, b);
 }
+// the same oracles through apply_isequal / apply_isclose (nested containers of arrays: optionals, tuples, lists; isclose with its default eps)
+template <bool Close, class A, class B> static bool acmp(const A& a, const B& b) {
+    if constexpr (Close) return (bool)utils::apply_isclose(a, b); else return (bool)utils::apply_isequal(a, b);
+}
+template <bool Close> static vj::value run_apply(const vj::value& c) {
+    const auto& g = c["args"]; const auto& a = g["a"]; const auto& b = g["b"];
+    std::string t = a["t"].as_str(), form = g["form"].as_str();
+    double sc = Close ? 0.25 : 1.0;
+    using E = std::conditional_t<Close, double, long>;
+    if (t == "nd") return boolean(acmp<Close>(nd_of<E>(a, sc), nd_of<E>(b, sc)));
+    if (t == "maybe") {
+        auto mk = [&](const vj::value& m) { std::optional<dyn_t<E>> o; if (m["has"].as_bool()) o = nd_of<E>(m["val"], sc); return o; };
+        return boolean(acmp<Close>(mk(a), mk(b)));
+    }
+    if (t == "tuple" && form == "tuple") {
+        auto x0 = nd_of<E>(a["items"][0], sc), y0 = nd_of<E>(b["items"][0], sc); auto x1 = nd_of<E>(a["items"][1], sc), y1 = nd_of<E>(b["items"][1], sc);
+        return boolean(acmp<Close>(nmtools_tuple{x0, x1}, nmtools_tuple{y0, y1}));
+    }
+    if (t == "tuple" && form == "list") {      // run-time lists of arrays, possibly of different length
+        auto mk = [&](const vj::value& m) { std::vector<dyn_t<E>> v; for (size_t i = 0; i < m["items"].size(); i++) v.push_back(nd_of<E>(m["items"][i], sc)); return v; };
+        return boolean(acmp<Close>(mk(a), mk(b)));
+    }
+    return crash_res("driver:unsupported");
+}
 template <bool Close> static vj::value run(const vj::value& c) {
     const auto& g = c["args"]; const auto& a = g["a"]; const auto& b = g["b"];
+    if (g.has("apply") && g["apply"].as_bool()) return run_apply<Close>(c);
     std::string t = a["t"].as_str(), form = g["form"].as_str();
     double eps = Close ? g["eps4"].as_int() / 4.0 : 0; double sc = Close ? 0.25 : 1.0;
     using E = std::conditional_t<Close, double, long>;
